@@ -34,12 +34,12 @@ package render
 //@ ensures nonnil: err != nil ==> result != nil
 //@ ensures cause: err != nil && !is(err, parser.Error) ==> result.Cause() == err
 //@ method RenderChildren
-//@ requires args: arg0 != nil
+//@ requires args: arg0 != nil && (is(arg0, *render.trimWriter) ==> valid(as(arg0, *render.trimWriter)))
 //@ assigns *
 //@ ensures onlyw: forall(x, "Val", x != arg0 && x != wsink(arg0) && !newbuf(x) && !is(x, *render.trimWriter) ==> wtotal(x) == old(wtotal(x)))
 //@ ensures tree: @tree
 //@ method RenderBlock
-//@ requires args: arg0 != nil && arg1 != nil
+//@ requires args: arg0 != nil && arg1 != nil && (is(arg0, *render.trimWriter) ==> valid(as(arg0, *render.trimWriter)))
 //@ assigns *
 //@ ensures onlyw: forall(x, "Val", x != arg0 && x != wsink(arg0) && !newbuf(x) && !is(x, *render.trimWriter) ==> wtotal(x) == old(wtotal(x)))
 //@ ensures tree: @tree
@@ -196,7 +196,7 @@ package render
 // ---- locations of render nodes (promoted Token methods) --------------------------------
 //@ globalinv render.invalidLoc: is(self, render.invalidLocation)
 //@ typeinv render.TagNode: true
-//@ typeinv render.BlockNode: true
+//@ typeinv render.BlockNode: forall(k, 0, len(self.Body), self.Body[k] != nil)
 //@ typeinv render.TextNode: true
 //@ typeinv render.ObjectNode: self.expr != nil
 
@@ -361,6 +361,11 @@ package render
 //@ at call Flush #1: ferr = result1
 //@ loop 1 invariant progress: count == _i && cerr == nil && valid(tw)
 //@ loop 1 invariant tree: @tree && forall(k, 0, len(seq), seq[k] != nil)
+//@ loop 1 invariant sink: (is(w, *render.trimWriter) ==> tw == as(w, *render.trimWriter)) && (!is(w, *render.trimWriter) ==> tw.w == w && fresh(tw))
+//@ loop 1 invariant onlyw: forall(x, "Val", x != tw.w && !newbuf(x) && !is(x, *render.trimWriter) ==> wtotal(x) == old(wtotal(x)))
+//@ ensures onlywPlain: !is(w, *render.trimWriter) ==> forall(x, "Val", x != w && !newbuf(x) && !is(x, *render.trimWriter) ==> wtotal(x) == old(wtotal(x)))
+//@ ensures onlywTrim: is(w, *render.trimWriter) ==> forall(x, "Val", x != old(as(w, *render.trimWriter).w) && !newbuf(x) && !is(x, *render.trimWriter) ==> wtotal(x) == old(wtotal(x)))
+//@ ensures tree: @tree
 //@ ensures all: result == nil ==> count == len(seq)
 //@ ensures firstError: cerr != nil ==> result == cerr
 //@ ensures flushError: ferr != nil ==> result != nil
@@ -500,3 +505,29 @@ package render
 //@ ensures strict: everr == nil && val == nil && ctx.config.StrictVariables ==> result != nil && !printed
 //@ ensures prints: everr == nil && !(val == nil && ctx.config.StrictVariables) ==> printed && (result == nil) == (werr == nil)
 //@ ensures located: result != nil && everr != nil && !is(everr, parser.Error) ==> result.Cause() == everr && result.LineNumber() == old(n.Token.SourceLoc.LineNo) && result.Path() == old(n.Token.SourceLoc.Pathname)
+
+// ---- rendering the children of a block (C20, C05, C01): delegates to RenderSequence ---------
+//@ func (render.rendererContext).RenderChildren
+//@ props C20 C05 C01
+//@ panics nothing
+//@ requires args: w != nil && (is(w, *render.trimWriter) ==> valid(as(w, *render.trimWriter)))
+//@ assigns *
+//@ ensures onlyw: forall(x, "Val", x != w && x != wsink(w) && !newbuf(x) && !is(x, *render.trimWriter) ==> wtotal(x) == old(wtotal(x)))
+//@ ensures tree: @tree
+
+//@ func (render.rendererContext).RenderBlock
+//@ props C20 C05 C01
+//@ panics nothing
+//@ requires args: w != nil && (is(w, *render.trimWriter) ==> valid(as(w, *render.trimWriter))) && b != nil
+//@ assumes compiledTree: valid(b)
+//@ assigns *
+//@ ensures onlyw: forall(x, "Val", x != w && x != wsink(w) && !newbuf(x) && !is(x, *render.trimWriter) ==> wtotal(x) == old(wtotal(x)))
+//@ ensures tree: @tree
+
+// the body of a block rendered into a fresh buffer: nothing reaches any existing writer
+//@ func (render.rendererContext).InnerString
+//@ props C12 C20 C01
+//@ panics nothing
+//@ assigns *
+//@ ensures outputElsewhere: forall(x, "Val", !newbuf(x) && !is(x, *render.trimWriter) ==> wtotal(x) == old(wtotal(x)))
+//@ ensures tree: @tree
